@@ -1,6 +1,7 @@
 package c02
 
 import (
+	"os"
 	"testing"
 	"time"
 
@@ -9,11 +10,15 @@ import (
 
 // TestCount prints the size of every stage (generation only).
 func TestCount(t *testing.T) {
-	for _, th := range []bool{false, true} {
+	tiers := []bool{false}
+	if os.Getenv("VERIF_COUNT_THOROUGH") != "" {
+		tiers = append(tiers, true)
+	}
+	for _, th := range tiers {
 		for _, st := range stages(th) {
 			t0 := time.Now()
 			var n int64
-			explore.Explore(st.b, func(x *explore.C) { _ = gen(x, st.p) }, func(x *explore.C) bool { n++; return n < 3000000 })
+			explore.Explore(st.b, func(x *explore.C) { _ = gen(x, st.p) }, func(x *explore.C) bool { n++; return n < 5000000 })
 			t.Logf("thorough=%v %s: %d cases, gen %.1fs", th, st.sub, n, time.Since(t0).Seconds())
 		}
 	}
